@@ -34,6 +34,10 @@ def eq(a, b):
 SRC = (
     "MASKS = [0, 0, 0]\n"
     "STAGING = ['InMemoryPartition']\n"
+    "OVERRIDE = [False]\n"
+    "def _ret(level, r):\n"
+    "    # optionally hand the partition back under a caller-chosen storage key\n"
+    "    return KeyOverrideResult(r, 'ov/level%d' % level) if OVERRIDE[0] else r\n"
     "def _mk(level):\n"
     "    items = {k: value_for(level, k) for i, k in enumerate(KEYS) if MASKS[level] & (1 << i)}\n"
     "    if STAGING[0] == 'InMemoryPartition':\n"
@@ -50,19 +54,19 @@ SRC = (
     "@m.memento_function(version='1')\n"
     "def p0():\n"
     "    _trace.append('p0')\n"
-    "    return _mk(0)\n"
+    "    return _ret(0, _mk(0))\n"
     "@m.memento_function(version='1')\n"
     "def p1():\n"
     "    _trace.append('p1')\n"
     "    r = _mk(1)\n"
     "    r._merge_parent = p0()\n"
-    "    return r\n"
+    "    return _ret(1, r)\n"
     "@m.memento_function(version='1')\n"
     "def p2():\n"
     "    _trace.append('p2')\n"
     "    r = _mk(2)\n"
     "    r._merge_parent = p1()\n"
-    "    return r\n"
+    "    return _ret(2, r)\n"
     "TOP = [None]\n"
     "@m.memento_function(version='1')\n"
     "def passthrough():\n"
@@ -100,16 +104,22 @@ def _prepare_parent(prog, sb, fn, prov, store):
     # prov == 'cache': leave the memory cache as it is (only meaningful for cached stores)
 
 
-def _run(K, masks, provs, staging, store):
+def _run(K, masks, provs, staging, store, override=False):
     kind = STORES[store]
     sb = Sandbox(kinds=kind)
     prog = Program("vpc17")
     try:
         d = prog.mod.__dict__
         d.update(InMemoryPartition=InMemoryPartition, OnDiskPartition=OnDiskPartition, KEYS=KEYS, value_for=value_for)
+        from twosigma.memento.result import KeyOverrideResult
+
+        d["KeyOverrideResult"] = KeyOverrideResult
         prog.exec(SRC)
         prog.MASKS[:] = masks
         prog.STAGING[0] = staging
+        prog.OVERRIDE[0] = override
+        if override:
+            cover("key-override")
         fns = [prog.p0, prog.p1, prog.p2]
         # level 0 .. K-1 are parents; prepare provenance bottom-up
         for level in range(K):
@@ -152,6 +162,9 @@ def _run_passthrough(K, masks, provs, top_prov, staging, store):
     try:
         d = prog.mod.__dict__
         d.update(InMemoryPartition=InMemoryPartition, OnDiskPartition=OnDiskPartition, KEYS=KEYS, value_for=value_for)
+        from twosigma.memento.result import KeyOverrideResult
+
+        d["KeyOverrideResult"] = KeyOverrideResult
         prog.exec(SRC)
         prog.MASKS[:] = masks
         prog.STAGING[0] = staging
@@ -212,17 +225,19 @@ def passthrough(m0: int, m1: int, pv0: int, tp: int, K: int, staging: int, store
 
 @obligation(
     "C17.chains",
-    covers=("chain-0", "chain-1", "parent-fresh", "parent-disk", "parent-cache", "own-key-wins", "parent-only-key", "ondisk-staging", "empty-level"),
+    covers=("chain-0", "chain-1", "parent-fresh", "parent-disk", "parent-cache", "own-key-wins", "parent-only-key", "ondisk-staging", "empty-level",
+            "key-override"),
     split={"store": [0, 1, 2], "staging": [0, 1, 2], "K": [0, 1]},
     bounds="key alphabet {'a', 'b/x', 'é:# '}; merge chains of length K = 0..1 (thorough 2); every presence mask per level (8 each); parent provenance "
            "{computed inside the child = fresh in-memory object, read back from disk, served from the memory cache}; staging partition "
-           "{InMemoryPartition, OnDiskPartition, InMemoryPartition over a defaultdict}; values incl. None and a DataFrame; stores {fs, fs+cache, "
-           "memory}",
+           "{InMemoryPartition, OnDiskPartition, InMemoryPartition over a defaultdict}; values incl. None and a DataFrame; returned plainly or under a key override (KeyOverrideResult); stores {fs, "
+           "fs+cache, memory}",
     variables="choice: masks (3 bits per level), provenance per level, staging, store",
     budget_s={"quick": 170, "thorough": 900},
     choice_vars=5,
 )
-def chains(m0: int, m1: int, pv0: int, K: int, staging: int, store: int):
+def chains(m0: int, m1: int, pv0: int, override: bool, K: int, staging: int, store: int):
+    ov = True if override else False
     m0 = pick(m0, 8)
     if K >= 1:
         m1 = pick(m1, 8)
@@ -244,7 +259,9 @@ def chains(m0: int, m1: int, pv0: int, K: int, staging: int, store: int):
             cover("empty-level")
         if PROVENANCE[pv0] == "cache" and not STORES[store].startswith("fs+cache"):
             assume(False)
-        _run(K, masks, [PROVENANCE[pv0], "disk"], STAGING[staging], store)
+        if ov and STORES[store] == "memory":
+            assume(False)  # key overrides are a notion of stores with storage keys
+        _run(K, masks, [PROVENANCE[pv0], "disk"], STAGING[staging], store, ov)
 
 
 @obligation(
